@@ -183,7 +183,12 @@ class Fmt:
             for a in args[1:]:
                 key = re.sub(r"\s+", " ", a)
                 if key not in self.kinds:
-                    raise Undecided("%s: format! argument %r has no declared kind (R4 table)" % (cut.desc, key))
+                    # an arithmetic expression over a declared integer argument is an integer
+                    base = [k2 for k2, (kd2, _) in self.kinds.items() if kd2 == "int" and k2 in key]
+                    if base and re.match(r"^[\w\.\(\)\s\+\-\*/]+$", key):
+                        self.kinds[key] = ("int", None)
+                    else:
+                        raise Undecided("%s: format! argument %r has no declared kind (R4 table)" % (cut.desc, key))
                 kd, call = self.kinds[key]
                 kinds.append(kd)
                 calls.append(call or (a if kd == "int" else "&" + a))
@@ -215,3 +220,12 @@ class Fmt:
 
     def text(self):
         return "\n".join(self.fns[k] for k in sorted(self.fns))
+
+
+def plain_fields_shim(sf, name, shim_name):
+    """R6 shim of a struct keeping every field of plain type (bool / integer), mechanically from the real declaration."""
+    c = sf.item("struct", name)
+    fields = re.findall(r"^\s*(?:pub(?:\([^)]*\))?\s+)?(\w+)\s*:\s*(bool|u8|u16|u32|u64|usize|i8|i16|i32|i64|isize)\s*,", c.text, re.M)
+    if not fields:
+        raise Undecided("struct %s has no plain fields" % name)
+    return "pub struct %s { %s }\n" % (shim_name, ", ".join("pub %s: %s" % f for f in fields)), c
